@@ -17,7 +17,7 @@ let split_on c s = String.split_on_char c s
 
 let site_name (s : site) : string = match s with
   | ZkNoServers -> "ZkNoServers" | ZkBadServers -> "ZkBadServers" | ZkBadRoot -> "ZkBadRoot"
-  | StorageCount -> "StorageCount" | StorageClass -> "StorageClass" | StorageQueueDepth -> "StorageQueueDepth"
+  | StorageCount -> "StorageCount" | StorageClass -> "StorageClass" | StorageWorkers -> "StorageWorkers" | StorageQueueDepth -> "StorageQueueDepth"
   | StorageLegacy -> "StorageLegacy" | StorageAllow -> "StorageAllow" | StorageDeny -> "StorageDeny"
   | EvaluatorCount -> "EvaluatorCount" | EvaluatorClass -> "EvaluatorClass" | EvaluatorCache -> "EvaluatorCache"
   | HttpAddress -> "HttpAddress" | HttpCaFile -> "HttpCaFile" | HttpNoCert -> "HttpNoCert" | HttpKeyPair -> "HttpKeyPair"
@@ -27,7 +27,7 @@ let site_name (s : site) : string = match s with
   | NotifierExtraCa -> "NotifierExtraCa" | EmailServer -> "EmailServer" | EmailFrom -> "EmailFrom" | EmailTo -> "EmailTo"
   | EmailAuth -> "EmailAuth" | ProfileUnknown -> "ProfileUnknown" | ProfileVersion -> "ProfileVersion"
   | ProfileCaFile -> "ProfileCaFile" | ProfileKeyPair -> "ProfileKeyPair" | ClusterClass -> "ClusterClass"
-  | ClusterNoServers -> "ClusterNoServers" | ClusterBadServers -> "ClusterBadServers" | ConsumerCluster -> "ConsumerCluster"
+  | ClusterNoServers -> "ClusterNoServers" | ClusterBadServers -> "ClusterBadServers" | ClusterRefresh -> "ClusterRefresh" | ClusterReaperRefresh -> "ClusterReaperRefresh" | ConsumerCluster -> "ConsumerCluster"
   | ConsumerClass -> "ConsumerClass" | ConsumerNoServers -> "ConsumerNoServers" | ConsumerBadServers -> "ConsumerBadServers"
   | ConsumerZkPath -> "ConsumerZkPath" | ConsumerLegacy -> "ConsumerLegacy" | ConsumerAllow -> "ConsumerAllow"
   | ConsumerDeny -> "ConsumerDeny" | HandlerAssertion -> "HandlerAssertion"
@@ -95,7 +95,8 @@ let build (toks : string list) : config =
     cfg_zk_root = opt "zookeeper.root-path";
     cfg_zk_tls = opt "zookeeper.tls";
     cfg_storage = List.map (fun n -> let r = "storage." ^ n in
-      { st_name = nm n; st_class = cls_of (get_s (r ^ ".class-name")); st_queue_depth = zi (get_i (r ^ ".queue-depth") 1);
+      { st_name = nm n; st_class = cls_of (get_s (r ^ ".class-name")); st_workers = zi (get_i (r ^ ".workers") 20);
+        st_queue_depth = zi (get_i (r ^ ".queue-depth") 1);
         st_legacy = legacy r; st_allow = atom (get_s (r ^ ".group-allowlist")); st_deny = atom (get_s (r ^ ".group-denylist")) })
       (modules "storage");
     cfg_evaluator = List.map (fun n -> let r = "evaluator." ^ n in
@@ -115,7 +116,9 @@ let build (toks : string list) : config =
       (modules "notifier");
     cfg_cluster = List.map (fun n -> let r = "cluster." ^ n in
       { cl_name = nm n; cl_class = cls_of (get_s (r ^ ".class-name")); cl_profile = atom (get_s (r ^ ".client-profile"));
-        cl_servers = List.map atom (get_l (r ^ ".servers")) }) (modules "cluster");
+        cl_servers = List.map atom (get_l (r ^ ".servers"));
+        cl_offset_refresh = zi (get_i (r ^ ".offset-refresh") 10); cl_topic_refresh = zi (get_i (r ^ ".topic-refresh") 60);
+        cl_reaper_refresh = zi (get_i (r ^ ".groups-reaper-refresh") 0) }) (modules "cluster");
     cfg_consumer = List.map (fun n -> let r = "consumer." ^ n in
       { cn_name = nm n; cn_class = cls_of (get_s (r ^ ".class-name")); cn_cluster = atom (get_s (r ^ ".cluster"));
         cn_profile = atom (get_s (r ^ ".client-profile")); cn_servers = List.map atom (get_l (r ^ ".servers"));
